@@ -1,16 +1,19 @@
 #!/bin/sh
-# Builds the whole framework offline from files on disk: Coq development (full .vo build),
-# extracted OCaml model driver, Rust harness binaries (against /repo's working tree).
+# Builds the whole framework offline from files on disk: regenerated tables, Coq development
+# (full .vo build), extracted OCaml model driver, Rust harness binaries (against /repo's tree).
 set -e
 cd "$(dirname "$0")"
 export CARGO_NET_OFFLINE=true
 mkdir -p .build
 python3 tools/regen_all.py
-( cd coq && coq_makefile -f _CoqProject -o Makefile && timeout 3000 make -j16 )
 python3 - <<'PY'
-import sys
+import sys, subprocess
 sys.path.insert(0, "tools")
 import vlib, importlib, json
+vlib.ensure_makefile()
+rc = subprocess.call("timeout 3400 make -j16", shell=True, cwd=vlib.COQ)
+if rc != 0:
+    sys.exit("coq build failed")
 print("driver:", vlib.build_driver())
 m = json.load(open("MANIFEST.json"))
 built = set()
